@@ -62,8 +62,13 @@ def rules(ctx: Ctx) -> None:
         bound = any(it.optional_vars is not None and u(it.optional_vars) == recv and "session()" in u(it.context_expr) for w in withs for it in w.items)
         ctx.ob("R04.1", "session-opened-on-the-runner's-provider", bound, where, f"`{recv}` is the session opened on the runner's metadata provider")
         # only conditioned on having a table target with columns
-        atoms = [u(a) for a in controlling_atoms(prog.parents, call)]
-        foreign = [a for a in atoms if not any(s in a for s in ("write", "isinstance(tgt_table", "tgt_columns", "get_table_columns"))]
+        # every condition the registration depends on is about the statement's write target or its columns: each name in it is computed from
+        # `<holder>.write` or from `get_table_columns(...)` (whatever the locals are called)
+        def _about_target(a: ast.AST) -> bool:
+            nodes = list(prog.influences(ev, a))
+            return any(isinstance(k, ast.Attribute) and k.attr == "write" for k in nodes) or any(isinstance(k, ast.Call) and isinstance(k.func, ast.Attribute) and k.func.attr == "get_table_columns" for k in nodes)
+
+        foreign = [u(a) for a in controlling_atoms(prog.parents, call) if not _about_target(a)]
         ctx.ob("R04.1", "registration-unconditional", not foreign, where, "registration depends only on the statement having a table target with columns" + (f" (also on `{foreign[0]}`)" if foreign else ""))
 
         # ---- R04.2 ------------------------------------------------------------------------------
@@ -78,11 +83,7 @@ def rules(ctx: Ctx) -> None:
         ok_cols = isinstance(src, ast.Call) and isinstance(src.func, ast.Attribute) and src.func.attr == "get_table_columns" and src.args and tbl_arg is not None and u(src.args[0]) == u(tbl_arg)
         ctx.ob("R04.2", "registered-columns-are-the-target's-columns", ok_cols, where,
                f"the registered columns are `<holder>.get_table_columns(<the registered table>)` (registered: `{u(cols_arg) if cols_arg is not None else None}` <- `{u(src)[:50] if src is not None else None}`)")
-        ok_tbl = False
-        if isinstance(tbl_arg, ast.Name):
-            for kind, node in prog.local_defs(ev, tbl_arg.id):
-                if kind == "assign" and "write" in u(node.value):
-                    ok_tbl = True
+        ok_tbl = tbl_arg is not None and any(isinstance(k, ast.Attribute) and k.attr == "write" for k in prog.influences(ev, tbl_arg))
         ctx.ob("R04.2", "registered-table-is-the-write-target", ok_tbl, where, "the registered table is the statement's write target")
     H = prog.cls("core.holders.SubQueryLineageHolder")
     gtc = H.methods.get("get_table_columns")
